@@ -127,6 +127,17 @@ func startClient(hostport, path string, o cliOpts) (*cli, error) {
 	return cl, nil
 }
 
+// ended reports whether the client terminated by itself (Wait returned).
+func (cl *cli) ended() (bool, error) {
+	select {
+	case e := <-cl.waitErr:
+		cl.waitErr <- e
+		return true, e
+	default:
+		return false, nil
+	}
+}
+
 func (cl *cli) ports(m int) (client [2]int, server [2]int, ssrc uint32, ok bool) {
 	cl.mu.Lock()
 	defer cl.mu.Unlock()
@@ -153,7 +164,14 @@ type cliScenario struct {
 	Seed    int64  `json:"seed"`
 }
 
-func runClientUDP(ts *rig.TestServer, sc cliScenario) {
+func runClientUDP(sc cliScenario) {
+	// one server per scenario: spoofers bind the server's port numbers on other addresses
+	ts, err := rig.StartServer(rig.ServerOpts{UDP: true, HandlerSet: "full", NoLog: true, OnEvent: onEvent, NoStream: true,
+		ReadTimeout: longTimeout, IdleTimeout: longTimeout, SenderReportPeriod: time.Hour, ReceiverReportPeriod: time.Hour})
+	if err != nil {
+		run.Fatal("client-udp server: %v", err)
+	}
+	defer ts.Close()
 	evals.Add(1)
 	r := rand.New(rand.NewSource(sc.Seed))
 	wit := map[string]any{"part": "client-udp", "client": sc}
@@ -167,7 +185,9 @@ func runClientUDP(ts *rig.TestServer, sc cliScenario) {
 	path := newPath("c")
 	st := newStream(ts, path)
 	defer st.Close()
-	cl, err := startClient(ts.Addr(), path, cliOpts{Proto: "udp", AnyPort: sc.AnyPort})
+	// long ReadTimeout: the server is silent on purpose for long intervals, the client must not
+	// end by itself meanwhile (Stats() is not called on a closing client)
+	cl, err := startClient(ts.Addr(), path, cliOpts{Proto: "udp", AnyPort: sc.AnyPort, ReadTimeout: longTimeout, InitialUDP: longTimeout})
 	if err != nil {
 		fail("client-udp/start-failed", err.Error(), nil)
 		return
@@ -232,6 +252,9 @@ func runClientUDP(ts *rig.TestServer, sc cliScenario) {
 			}
 			sps := openSpoofers("127.0.0.1", sp2[0], sp2[1], true, otherIPs(r, sc.NOther, "127.0.0.1"))
 			for _, sp := range sps {
+				if e, _ := cl.ended(); e {
+					break
+				}
 				dst, dstC := clientDst(sp, cp)
 				before := statsView(cl.c.Stats().Session)
 				n := sendSpoof(sp, dst, dstC, sc.Burst,
@@ -241,6 +264,9 @@ func runClientUDP(ts *rig.TestServer, sc cliScenario) {
 					func(k int) []byte { return senderReport(ssrc, sp.Class, uint32(k)) })
 				run.Count("spoofed-datagrams:client:"+map[bool]string{true: "anyport:", false: ""}[sc.AnyPort]+classNames[sp.Class], int64(n))
 				waitDrained(cp[0], cp[1])
+				if e, _ := cl.ended(); e {
+					break
+				}
 				after := statsView(cl.c.Stats().Session)
 				run.Count("stats-snapshots-compared:client", 1)
 				in, out := diffStats(before, after)
@@ -265,10 +291,8 @@ func runClientUDP(ts *rig.TestServer, sc cliScenario) {
 			break
 		}
 	}
-	select {
-	case err := <-cl.waitErr:
+	if e, err := cl.ended(); e {
 		fail("client-udp/victim-client-ended", fmt.Sprintf("the client ended by itself during the scenario: %v", err), nil)
-	default:
 	}
 	if run.WantSample() {
 		rt, rc := cl.sink.counts()
@@ -464,7 +488,7 @@ func runAnyPort(ac anyPortCase) {
 		return
 	}
 	defer s.close()
-	cl, err := startClient(s.addr(), "/stream", cliOpts{Proto: "udp", AnyPort: true})
+	cl, err := startClient(s.addr(), "/stream", cliOpts{Proto: "udp", AnyPort: true, ReadTimeout: longTimeout, InitialUDP: longTimeout})
 	if err != nil {
 		fail("client-udp/anyport/setup-refused", "a client with AnyPortEnable could not set up against a server that "+
 			map[bool]string{true: "provides no server ports", false: "announces server ports"}[ac.NoServerPorts]+": "+err.Error())
@@ -493,12 +517,19 @@ func runAnyPort(ac anyPortCase) {
 		}
 		dst := &net.UDPAddr{IP: net.ParseIP("127.0.0.1"), Port: cp[0]}
 		dstC := &net.UDPAddr{IP: net.ParseIP("127.0.0.1"), Port: cp[1]}
+		// the server's own packets are numbered consecutively; spoofers use the numbers that
+		// would come next (the receiver re-orders: a gap in the legitimate numbering would hold
+		// packets back by design)
 		seq := uint16(1000)
 		send := func(sp *spoofer, n int) {
 			for k := 0; k < n; k++ {
-				seq++
-				_, _ = sp.rtp.WriteToUDP(buildRTP(runID, m, sp.Class, 0xABCD0000+uint32(m), seq, uint32(seq)*3000, uint64(seq), r), dst)
-				_, _ = sp.rtcp.WriteToUDP(senderReport(0xABCD0000+uint32(m), sp.Class, uint32(seq)), dstC)
+				sq := seq + uint16(1+k)
+				if sp.Class == clLegit {
+					seq++
+					sq = seq
+				}
+				_, _ = sp.rtp.WriteToUDP(buildRTP(runID, m, sp.Class, 0xABCD0000+uint32(m), sq, uint32(sq)*3000, uint64(sq), r), dst)
+				_, _ = sp.rtcp.WriteToUDP(senderReport(0xABCD0000+uint32(m), sp.Class, uint32(sq)), dstC)
 				run.Count("spoofed-datagrams:client:anyport-script:"+classNames[sp.Class], 2)
 			}
 		}
@@ -610,15 +641,7 @@ func clientTimingAttempt(c timingCase) bool {
 	cl.sink.setWitness(wit)
 	start := cl.played
 	lastLegit := start
-	ended := func() (bool, error) {
-		select {
-		case e := <-cl.waitErr:
-			cl.waitErr <- e
-			return true, e
-		default:
-			return false, nil
-		}
-	}
+	ended := cl.ended
 	if live != nil {
 		for time.Since(start) < c.Timeout*3/2 {
 			t0 := time.Now()
@@ -704,22 +727,16 @@ func clientTimingAttempt(c timingCase) bool {
 
 func clientUDPPart() {
 	rs := run.Rand("client-udp", 0)
-	ts, err := rig.StartServer(rig.ServerOpts{UDP: true, HandlerSet: "full", NoLog: true, OnEvent: onEvent, NoStream: true,
-		ReadTimeout: longTimeout, IdleTimeout: longTimeout, SenderReportPeriod: time.Hour, ReceiverReportPeriod: time.Hour})
-	if err != nil {
-		run.Fatal("client-udp server: %v", err)
-	}
-	defer ts.Close()
 	var wg sync.WaitGroup
 	for _, ap := range []bool{false, true} {
-		sc := cliScenario{Name: fmt.Sprintf("real-server/anyport=%v", ap), AnyPort: ap, Burst: run.Pick(150, 9000), Rounds: run.Pick(2, 6), NOther: run.Pick(1, 4), Seed: rs.Int63()}
+		sc := cliScenario{Name: fmt.Sprintf("real-server/anyport=%v", ap), AnyPort: ap, Burst: run.Pick(500, 12000), Rounds: run.Pick(2, 6), NOther: run.Pick(2, 4), Seed: rs.Int63()}
 		wg.Add(1)
 		go func() {
 			defer wg.Done()
-			runClientUDP(ts, sc)
+			runClientUDP(sc)
 		}()
 	}
-	for i := 0; i < run.Pick(1, 5); i++ {
+	for i := 0; i < run.Pick(2, 8); i++ {
 		for _, np := range []bool{true, false} {
 			ac := anyPortCase{Name: fmt.Sprintf("scripted/no-server-ports=%v", np), NoServerPorts: np, Seed: rs.Int63()}
 			wg.Add(1)
